@@ -90,8 +90,12 @@ CLAIMS = [
      "text": "For directed and TLC-sampled combinations of 2-3 short client programs on shared ids, the per-thread lock programs are recorded from the "
              "real TieredEngine; LockSched.tla enumerates every complete schedule with at most two preemptions (plus seeded random schedules); each is "
              "replayed with real threads through the gated parking_lot, logging invoke / response with a global sequence number; Linearize.tla lets TLC "
-             "search for a real-time-respecting total order explaining every response (vector and metadata of one read from the same write).",
-     "note": "preemption at lock operations and API boundaries; bulk reads judged per document; the torn read-with-metadata found by this check was repaired by a fix: commit",
+             "search for a real-time-respecting total order explaining every response (vector and metadata of one read from the same write). "
+             "Server level: TLC-enumerated groups of 2-3 concurrent RPCs on one id are sent repeatedly to the real kyrodb_server, separated by "
+             "quiescent reads; every group is a history judged by the same Linearize.tla.",
+     "note": "preemption at lock operations and API boundaries; bulk reads judged per document; no schedule control over the server process (repetition "
+             "with jitter, sound verdict on what is observed); the torn read-with-metadata of the engine and the two-call Query handler of the server found "
+             "by this check were repaired by fix: commits",
      "ref": "DESIGN.md section 6 (C05)"},
     {"id": "C09",
      "technique": "TLC-generated writer/snapshotter programs -> recorded lock programs -> TLC schedule enumeration (LockSched.tla) -> gated replay on a persistent backend -> strict recovery -> TLC validation (DurabilityOracle.EqualOk)",
